@@ -614,3 +614,48 @@ theorem toSq_kron_unitary (m n : Nat) (U V : Nat → Nat → ℂ)
 
 end Toq.ChanPropProofs
 end KrausConstructors
+
+/-! ## Ties: model functions of the driver ↔ specification -/
+section Ties
+open Toq.ChannelProps Toq.ChanPropSpec Matrix
+namespace Toq.ChanPropProofs
+
+/-- the complex `dO × di` matrix denoted by an exact operator -/
+def matC (di dO : Nat) (M : Toq.ChannelOps.Mat QI) : Matrix (Fin dO) (Fin di) ℂ :=
+  fun a i => (M.e a.val i.val).toC
+
+theorem foldl_add_toC (l : List QI) : ∀ acc : QI,
+    (l.foldl (· + ·) acc).toC = acc.toC + (l.map QI.toC).sum := by
+  induction l with
+  | nil => intro acc; simp
+  | cons x xs ih =>
+    intro acc
+    rw [List.foldl_cons, ih, QI.toC_add, List.map_cons, List.sum_cons, add_assoc]
+
+/-- a sum over a zipped pair of lists of equal length as a sum over positions -/
+theorem sum_zip_eq_sum_fin {α : Type} (g : α → α → ℂ) : ∀ (as bs : List α) (hl : as.length = bs.length),
+    ((as.zip bs).map fun ab => g ab.1 ab.2).sum
+      = ∑ k : Fin as.length, g as[k] (bs[k.val]'(hl ▸ k.isLt)) := by
+  intro as
+  induction as with
+  | nil => intro bs hl; simp
+  | cons x xs ih =>
+    intro bs hl
+    cases bs with
+    | nil => simp at hl
+    | cons y ys =>
+      have hl' : xs.length = ys.length := by simpa using hl
+      rw [List.zip_cons_cons, List.map_cons, List.sum_cons, ih ys hl']
+      simp only [List.length_cons]
+      rw [Fin.sum_univ_succ]
+      rfl
+
+theorem pair_mod {di dO : Nat} (i : Fin di) (a : Fin dO) : (i.val * dO + a.val) % dO = a.val := by
+  rw [Nat.mul_comm, Nat.mul_add_mod, Nat.mod_eq_of_lt a.isLt]
+
+theorem pair_div {di dO : Nat} (i : Fin di) (a : Fin dO) : (i.val * dO + a.val) / dO = i.val := by
+  have hd : 0 < dO := Nat.lt_of_le_of_lt (Nat.zero_le _) a.isLt
+  rw [Nat.mul_comm, Nat.mul_add_div hd, Nat.div_eq_of_lt a.isLt, Nat.add_zero]
+
+end Toq.ChanPropProofs
+end Ties
